@@ -303,12 +303,24 @@ func (o *obs) coq() string {
 	return "OSkip"
 }
 
-// a STRING token whose unquoted form is not valid UTF-8 puts the text outside the code-point model
+// a STRING token with an escape that denotes a single byte >= 0x80 (\xHH, \ooo) puts the text outside the
+// code-point model (lib/Quote.v answers UOutside), whether or not the bytes happen to form valid UTF-8
 func outsideModel(text string) bool {
 	for _, k := range lexReal(text) {
-		if k.Kind == "STRING" {
-			if u, err := strconv.Unquote(k.Text); err == nil && !utf8.ValidString(u) {
-				return true
+		if k.Kind == "STRING" && len(k.Text) >= 2 {
+			if _, err := strconv.Unquote(k.Text); err != nil {
+				continue
+			}
+			body := k.Text[1 : len(k.Text)-1]
+			for len(body) > 0 {
+				c, multibyte, tail, err := strconv.UnquoteChar(body, '"')
+				if err != nil {
+					break
+				}
+				if !multibyte && c >= 0x80 {
+					return true
+				}
+				body = tail
 			}
 		}
 	}
@@ -410,6 +422,24 @@ var advValues = []string{
 	"=", "!=", "~", ">", "<=", "@", "a@b.com", "+12065551212", "12-34", "bob", "Bob Smith", "ümlaut", `\\\`, `\\\\`, `\"\`, `"\\`,
 }
 
+// values ending in runs of 1-5 backslashes (odd and even), alone and after other characters: the STRING rule of the
+// grammar takes a backslash directly before a quote as escaping it, whatever precedes the backslash
+var bsValues = []string{`\`, `\\`, `\\\`, `\\\\`, `\\\\\`, `a\`, `a\\`, `a\\\`, `a\\\\`, `"\\`, `x"\\`, `\"\\`, `é\\`, `\x5c\\`, `a b\\\\`, `\ \\`}
+
+func pickValue(r *hx.Rand) string {
+	if r.Chance(1, 5) {
+		return hx.Pick(r, bsValues)
+	}
+	v := hx.Pick(r, advValues)
+	if r.Chance(1, 6) {
+		v += hx.Pick(r, advValues)
+	}
+	if r.Chance(1, 10) {
+		v += hx.Pick(r, bsValues)
+	}
+	return v
+}
+
 var attrNames = []string{"uuid", "id", "name", "status", "language", "urn", "group", "flow", "history", "tickets", "created_on", "last_seen_on"}
 var schemeNames = []string{"tel", "twitter", "mailto", "whatsapp", "facebook", "telegram", "ext"}
 var fieldKeys = []string{"age", "gender", "x", "a1", "_u", "or", "and", "has", "is", "name", "tel", "état", "βeta", "日", "f_2", "12", "o"}
@@ -461,9 +491,9 @@ var rawStrings = []string{`"\q"`, `"\x41"`, `"\x4"`, `"a\"`, `"\"`, `"\\"`, `"\\
 func genString(r *hx.Rand) string {
 	switch x := r.Intn(10); {
 	case x < 4:
-		return contactql.QuoteValue(hx.Pick(r, advValues))
+		return contactql.QuoteValue(pickValue(r))
 	case x < 6:
-		return strconv.Quote(hx.Pick(r, advValues))
+		return strconv.Quote(pickValue(r))
 	case x < 8:
 		return hx.Pick(r, rawStrings)
 	case x < 9:
@@ -535,10 +565,7 @@ func genText(r *hx.Rand) string {
 
 // programmatic trees: valid keys, adversarial values
 func genCond(r *hx.Rand, redact bool) *qnode {
-	v := hx.Pick(r, advValues)
-	if r.Chance(1, 6) {
-		v = hx.Pick(r, advValues) + hx.Pick(r, advValues)
-	}
+	v := pickValue(r)
 	op := hx.Pick(r, []string{"=", "=", "=", "!=", "!=", "~", ">", "<", ">=", "<="})
 	switch x := r.Intn(100); {
 	case x < 55:
@@ -715,6 +742,12 @@ func runCqlStreams(o *hx.Opts, res *hx.Result, r *hx.Rand) {
 		redact := i%4 == 3
 		w := newWorld(redact)
 		t := genTree(rtr, redact, 3)
+		if i < 2*len(bsValues) {
+			// every backslash-run value followed by a further quoted literal, under AND and under OR
+			t = &qnode{Bool: []string{"and", "or"}[i%2], Children: []*qnode{
+				{PT: "attr", Key: "name", Op: "=", Value: bsValues[i/2]}, {PT: "field", Key: "x", Op: "!=", Value: "b"},
+				{PT: "field", Key: "y", Op: "=", Value: bsValues[(i/2+3)%len(bsValues)]}, {PT: "attr", Key: "name", Op: "=", Value: "c d"}}}
+		}
 		built := t.build()
 		text := contactql.Stringify(built)
 		ob := observe(w.env, text)
@@ -754,9 +787,10 @@ func runCqlStreams(o *hx.Opts, res *hx.Result, r *hx.Rand) {
 		escaped := make([]any, k)
 		holders := make([]any, k)
 		for j := range vals {
-			vals[j] = hx.Pick(ri, advValues)
-			if ri.Chance(1, 5) {
-				vals[j] += hx.Pick(ri, advValues)
+			vals[j] = pickValue(ri)
+			if i < len(templates)*len(bsValues) {
+				// every template with every backslash-run value in every slot
+				vals[j] = bsValues[(i/len(templates)+j)%len(bsValues)]
 			}
 			escaped[j] = flows.ContactQueryEscaping(vals[j])
 			holders[j] = fmt.Sprintf(`"zqholder%d"`, j)
